@@ -16,13 +16,13 @@ def configs(t):
         cfg(2, 5, 2, F=1, faults=['crash'], warm=5, cost=5),
         cfg(2, 5, 1, F=1, faults=['crash', 'restart'], warm=5, cost=6),
         cfg(2, 5, 1, F=1, faults=['crash', 'restart'], warm=5, fence=True, cost=6),
-        cfg(2, 5, 1, F=1, faults=['isolate'], warm=5, cost=5),
-        cfg(2, 5, 1, F=1, faults=['isolate'], warm=5, fence=True, cost=5),
+        cfg(2, 4, 1, F=1, faults=['isolate'], warm=5, cost=9),
+        cfg(2, 4, 1, F=1, faults=['isolate'], warm=5, fence=True, cost=7),
         cfg(2, 5, 1, F=1, faults=['stall'], warm=5, cost=5),
         cfg(3, 4, 0, F=1, faults=['crash'], warm=6, cost=6),
         cfg(3, 2, 1, F=1, faults=['crash'], warm=6, crashable=[2], cost=8),
         cfg(2, 3, 1, requests=RQ, F=1, faults=['crash'], warm=5, cost=5),
-        cfg(3, 2, 0, requests=RQ, F=1, faults=['crash'], warm=6, cost=6),
+        cfg(3, 2, 0, requests=RQ, F=1, faults=['crash'], warm=6, crashable=[2], cost=6),
         cfg(2, 4, 1, so='USER', requests=['end_sync'], cost=6),
         cfg(2, 5, 1, rules=True, F=1, faults=['crash'], cost=6),
         cfg(2, 3, 1, rules=True, requests=RQ, warm=5, cost=4),
